@@ -3,6 +3,8 @@
 and run the registered checks against it in a scratch copy of /repo.
 usage: seed_eval.py <seed dir> [--no-confirm] [--props C01,C02]"""
 import sys, os, json, subprocess, shutil, re
+GC = os.environ.get('GROGCHECK', '/verif/bin/grogcheck')
+BASE = '/tmp/seed/base_verif' + ('_dev' if GC.endswith('.dev') else '')
 seed = sys.argv[1].rstrip('/')
 confirm = '--no-confirm' not in sys.argv
 props = None
@@ -67,13 +69,13 @@ try:
         except Exception:
             return {'<no evidence>'}
         return {o['key'] for o in ev['coverage'].get('samples', []) if o['status'] != 'discharged'} | ({'<incomplete>'} if not ev['coverage'].get('samples') else set())
-    os.makedirs('/tmp/seed/base_verif/evidence', exist_ok=True)
-    shutil.copy('/verif/known_findings.json', '/tmp/seed/base_verif/known_findings.json')
+    os.makedirs(BASE + '/evidence', exist_ok=True)
+    shutil.copy('/verif/known_findings.json', BASE + '/known_findings.json')
     for i in ids:
-        basef = '/tmp/seed/base_verif/evidence/%s.json' % i
-        if not os.path.exists(basef) or os.path.getmtime(basef) < os.path.getmtime('/verif/bin/grogcheck'):
-            subprocess.run(['/verif/bin/grogcheck', 'check', i, '-repo', '/repo', '-verif', '/tmp/seed/base_verif'], env=env, capture_output=True, text=True)
-        subprocess.run(['/verif/bin/grogcheck', 'check', i, '-repo', scratch, '-verif', scratch + '_verif'], env=env, capture_output=True, text=True)
+        basef = BASE + '/evidence/%s.json' % i
+        if not os.path.exists(basef) or os.path.getmtime(basef) < os.path.getmtime(GC):
+            subprocess.run([GC, 'check', i, '-repo', '/repo', '-verif', BASE + ''], env=env, capture_output=True, text=True)
+        subprocess.run([GC, 'check', i, '-repo', scratch, '-verif', scratch + '_verif'], env=env, capture_output=True, text=True)
         new = badkeys(scratch + '_verif/evidence/%s.json' % i) - badkeys(basef)
         if new:
             fired[i] = sorted(new)[:6]
